@@ -640,7 +640,7 @@ func NewExplorer(prog *ssa.Program, fn *ssa.Function, cfg Config) *Explorer {
 		cfg.QueryTimeout = 20 * time.Second
 	}
 	if cfg.MaxPaths == 0 {
-		cfg.MaxPaths = 200000
+		cfg.MaxPaths = 600000
 	}
 	if cfg.StepBudget == 0 {
 		cfg.StepBudget = 20_000_000
